@@ -64,6 +64,12 @@ def all_interleavings(streams, cap=None, rng=None):
     return out
 
 
+def failing_key_stream(idx, vals1, vals2, code=9):
+    """a lifetime that ends with an error event of the source itself, then the key again"""
+    return [ev('c', idx)] + [ev('n', idx, v) for v in vals1] + [{'t': 'e', 'k': [idx], 'code': code}] \
+        + [ev('c', idx)] + [ev('n', idx, v) for v in vals2] + [ev('d', idx)]
+
+
 def key_stream(idx, vals, complete=True):
     s = [ev('c', idx)] + [ev('n', idx, v) for v in vals]
     if complete:
